@@ -4,7 +4,7 @@ EXPLANATION = ('The real driver (format_writer ctor, next_format, fetch_prefix, 
                'n ARBITRARY non-NUL bytes + NUL held in an exactly (n+1)-byte heap object, with a logging final subclass as sink and a glibc-faithful strtol model whose every read is bounds-checked. '
                'Asserted: only ST::bad_format / std::out_of_range / std::invalid_argument escape; no read past the terminator; no abort other than the documented padded-character contract assertion; '
                'all loops terminate within the unwinding bound; every literal handed to the sink lies inside the format string; literal output equals the reference scanner.')
-BOUNDS = {'quick': 'format strings of every length 0..3 (parser alone), 0..2 (apply_format with 0, 1, 2 const char* arguments and 1 char argument); all byte values',
+BOUNDS = {'quick': 'format strings of every length 0..3 (parser alone), 0..2 (apply_format with 0, 1, 2 const char* arguments and 1 char argument); all byte values; renderers (text, bool, ST::string, char, int-as-char) under a fully symbolic format_spec, width <= 8, text <= 4',
           'thorough': 'lengths 4..5 (parser), 3..4 (apply_format); measured: parser 82 s at length 3, 309 s at length 4'}
 OUTSIDE = 'format strings longer than the bound (the renderers are additionally run under a fully symbolic format_spec, so widths/precisions that need longer format strings are covered at the rendering stage); numeric argument types (rendering is C11/C12/C13); ST::unicode_error from the final to_string (C02/C16); std::function dispatch for more than two arguments'
 ALLOW = ('Char formatting does not currently support padding',)
